@@ -198,13 +198,13 @@ Example c10_example_history :
      HRequest [bs "kamal-rollout=x"]; HRestart; HRequest [bs "kamal-rollout=x"]]) =
   [OErrNoRollout; OServed 1; OOk; OServed 1; OOk; OServed 2; OServed 1; OOk; OServed 3; OServed 2; OOk; OServed 2;
    OOk; OServed 3; OOk; OServed 3].
+Proof. vm_compute. reflexivity. Qed.
 
 (** A restart without rollout targets leaves [rollout set] rejected (the
     pinned tree accepted it: finding D6, repaired in /repo by d6a34a4). *)
 Example c10_example_restart_then_set :
   snd (hrun (init_svc 0) [HRestart; HSet 100 []; HRequest [bs "kamal-rollout=x"]]) =
   [OOk; OErrNoRollout; OServed 0].
-Proof. vm_compute. reflexivity. Qed.
 Proof. vm_compute. reflexivity. Qed.
 
 Print Assumptions c10_exact.
